@@ -292,6 +292,16 @@ def instances(tier, seed):
     for n, specs in ctl_fixed:
         for k in range(n + 1):
             items.append(("ctl", {"n": n, "specs": [_l(s) for s in specs], "k": k, "label": f"n={n} k={k} {CS.spec_str(specs)}"}))
+    # every built-in gate (read from the library's table at run time), bare, as a one-operation circuit: control below and
+    # above it, inverse
+    from .c02 import gate_table
+
+    for name, (gkind, _obj, npar) in sorted(gate_table().items()):
+        gid = name if gkind == "const" else f"{name}({','.join('th%d' % i for i in range(npar))})"
+        a = arity(gid)
+        for k in ((0, a) if tier == "quick" else range(a + 1)):
+            items.append(("ctl", {"n": a, "specs": [_l((gid, tuple(range(a))))], "k": k, "label": f"builtin n={a} k={k} {gid}"}))
+        items.append(("inv", {"n": a, "specs": [_l((gid, tuple(reversed(range(a)))))], "label": f"builtin n={a} {gid} reversed qubits"}))
     for j in range(6 if tier == "quick" else 40):
         n = rng.choice([1, 2, 2])
         specs = rand_circ(n, rng.choice([1, 2, 3]), [g for g in pool1 + pool2 if g not in ("G2", "RZ(th1)|c1")])
